@@ -9,6 +9,7 @@ positive constants only; stacking offsets count every vertex group; derived visu
 from __future__ import annotations
 
 import ast
+import re
 
 import networkx as nx
 
@@ -186,12 +187,23 @@ def check(run):
 
     # ------------------------------------------------------------------ R4 merge key
     mv = ix.func("trimesh.grouping:merge_vertices")
-    comps = []
+    from ..provenance import Prov
+    pm = Prov(ix, mv)
+    # the key is whatever list reaches numpy.column_stack: its literal elements and everything appended to it
+    comps, acc = [], None
+    for c in ast.walk(mv.node):
+        if isinstance(c, ast.Call) and pm.callee(c.func) == "numpy.column_stack" and len(c.args) == 1:
+            if isinstance(c.args[0], ast.Name):
+                acc = c.args[0].id
+            elif isinstance(c.args[0], (ast.List, ast.Tuple)):
+                comps += list(c.args[0].elts)
     for st in ast.walk(mv.node):
-        if isinstance(st, ast.Assign) and isinstance(st.targets[0], ast.Name) and st.targets[0].id == "stacked" and isinstance(st.value, ast.List):
+        if acc and isinstance(st, ast.Assign) and isinstance(st.targets[0], ast.Name) and st.targets[0].id == acc and isinstance(st.value, (ast.List, ast.Tuple)):
             comps += list(st.value.elts)
-        if isinstance(st, ast.Call) and isinstance(st.func, ast.Attribute) and st.func.attr == "append" and ast.unparse(st.func.value) == "stacked":
+        if acc and isinstance(st, ast.Call) and isinstance(st.func, ast.Attribute) and st.func.attr == "append" and ast.unparse(st.func.value) == acc:
             comps += list(st.args)
+        if acc and isinstance(st, ast.AugAssign) and ast.unparse(st.target) == acc and isinstance(st.value, (ast.List, ast.Tuple)):
+            comps += list(st.value.elts)
     if len(comps) < 3:
         raise AnalysisError("anchor vanished: the three components of the merge key in grouping.merge_vertices")
     for c in comps:
@@ -202,11 +214,43 @@ def check(run):
             run.violation("R4", mv.where, f"merge key component `{ast.unparse(c)}` is not the raw attribute scaled by a positive constant: "
                                           f"distinct values can collapse (or equal ones separate) before rounding",
                           key=key_of("C07-R4", ast.unparse(c)))
-    txt = ast.unparse(mv.node)
-    ok = "stacked = np.column_stack(stacked).round().astype(np.int64)" in txt and "unique_rows(stacked[referenced], keep_order=True)" in txt \
-        and "mesh.update_vertices(mask=mask, inverse=inverse)" in txt and "mask = np.nonzero(referenced)[0][u]" in txt \
-        and "inverse[referenced] = i" in txt
-    run.instance("R4", mv.where, "key rounded once, unique rows in first-occurrence order, mask/inverse handed to update_vertices", ok)
+    # pipeline, on canonical forms (local names do not matter): update_vertices(mask = nonzero(R)[0][U], inverse = V) with
+    # U, I = unique_rows(KEY[R], keep_order=True), KEY = column_stack(...).round().astype(int64), V[R] = I
+    KEY = r"numpy\.column_stack\(.+\)\.round\(\)\.astype\(numpy\.int64\)"
+    UNI = r"trimesh\.grouping\.unique_rows\(" + KEY + r"\[L_(?P<R>\w+)\], keep_order=True\)"
+    ok = False
+    detail = "no update_vertices(mask=..., inverse=...) call"
+    for c in ast.walk(mv.node):
+        if isinstance(c, ast.Call) and isinstance(c.func, ast.Attribute) and c.func.attr == "update_vertices":
+            stc = pm.stmt_of(c)
+            kw = {k.arg: k.value for k in c.keywords}
+            pnames = ["mask", "inverse"]
+            for i_, a_ in enumerate(c.args[:2]):
+                kw.setdefault(pnames[i_], a_)
+            if "mask" not in kw or "inverse" not in kw:
+                continue
+            refs = [n.id for n in ast.walk(mv.node) if isinstance(n, ast.Name)]
+            # which local plays the role of the referenced-vertex mask: the one numpy.nonzero is applied to
+            rn = [x.args[0].id for x in ast.walk(mv.node) if isinstance(x, ast.Call) and pm.callee(x.func) == "numpy.nonzero" and x.args and isinstance(x.args[0], ast.Name)]
+            stop = tuple(set(rn))
+            mtxt = pm.canon(kw["mask"], stc, stop=stop)
+            mm = re.fullmatch(r"numpy\.nonzero\(L_(?P<R0>\w+)\)\[0\]\[" + UNI + r"\[0\]\]", mtxt)
+            detail = f"mask = `{mtxt[:90]}`"
+            if not mm or mm.group("R0") != mm.group("R"):
+                continue
+            R = mm.group("R")
+            inv = kw["inverse"]
+            if not isinstance(inv, ast.Name):
+                detail = "inverse is not a local array filled from the unique rows"
+                continue
+            fills = [st for st in ast.walk(mv.node) if isinstance(st, ast.Assign) and isinstance(st.targets[0], ast.Subscript)
+                     and ast.unparse(st.targets[0].value) == inv.id]
+            good = [st for st in fills if ast.unparse(st.targets[0].slice) == R
+                    and re.fullmatch(UNI + r"\[1\]", pm.canon(st.value, st, stop=stop))]
+            detail = f"mask = nonzero({R})[0][unique rows of the rounded key], {inv.id}[{R}] = inverse of the same unique rows: {bool(good)}"
+            if good and len(fills) == len(good):
+                ok = True
+    run.instance("R4", mv.where, f"key rounded once, unique rows in first-occurrence order, mask/inverse handed to update_vertices ({detail})", ok)
     if not ok:
         run.violation("R4", mv.where, "merge_vertices no longer derives mask and inverse from order-preserving unique rows of the rounded key",
                       key=key_of("C07-R4", "pipeline"))
@@ -339,14 +383,19 @@ def _visuals(run, ix, ef):
     # derived colour memos: a ColorVisuals function that memoises (under the visual's own key) a value computed from the
     # mesh's faces / vertices is acceptable only if the update_* funnel drops that memo when it applies a mask
     n = 0
-    drops = False
-    for st in ast.walk(uk.node):
-        if isinstance(st, ast.If):
-            for b in st.orelse:
-                if "self._cache.delete(key)" in ast.unparse(b) or "self._cache.clear()" in ast.unparse(b):
-                    drops = True
-        if isinstance(st, ast.Expr) and ast.unparse(st) in ("self._cache.clear()",) :
-            drops = True
+    # every path through _update_key either re-stores the masked array (the data is defined: derived memos are not used)
+    # or drops the derived memo - whichever way round the test is written (path summaries)
+    from ..pathsum import summaries
+
+    def _drop(st):
+        return isinstance(st, ast.Expr) and isinstance(st.value, ast.Call) and ast.unparse(st.value.func) in ("self._cache.delete", "self._cache.clear", "self._cache.pop")
+
+    def _restore(st):
+        return isinstance(st, ast.Assign) and isinstance(st.targets[0], ast.Subscript) and ast.unparse(st.targets[0].value) == "self._data" \
+            and "[mask]" in ast.unparse(st.value)
+
+    paths = summaries(uk.node)
+    drops = bool(paths) and all(ps.has_stmt(_drop) or ps.has_stmt(_restore) for ps in paths if ps.exit != "raise") and any(ps.has_stmt(_drop) for ps in paths)
     for name, g in sorted(list(cv.methods.items()) + list(cv.getters.items())):
         own = ast.unparse(g.node)
         stores = [st for st in ast.walk(g.node) if isinstance(st, ast.Assign) and isinstance(st.targets[0], ast.Subscript)
